@@ -1,9 +1,11 @@
 #include "vp_amu.h"
 struct vp_amu_state vp_amu;
+void (*vp_amu_wait_env) (nsync_mu *mu, const void *arg);
 void vp_amu_reset (void) {
 	int i;
 	for (i = 0; i != VP_AMU_MAX; i++) { vp_amu.addr[i] = NULL; vp_amu.held[i] = 0; }
 	vp_amu.lock_calls = 0; vp_amu.unlock_calls = 0; vp_amu.cv_waits = 0; vp_amu.cv_broadcasts = 0;
+	vp_amu_wait_env = NULL;
 }
 void vp_amu_register (const void *mu, int held) {
 	int i;
@@ -39,6 +41,17 @@ int nsync_mu_trylock (nsync_mu *mu) {
 	VP_ASSERT (!vp_amu.held[i], "C01 client: nsync_mu_trylock on a mutex this thread already holds");
 	if (vp_nondet_bool ()) { vp_amu.held[i] = 1; return 1; }
 	return 0;
+}
+/* VP-ASSUMED: nsync_mu_wait (conditional critical section, C05/C06): returns holding the mutex with the condition true; while it waits other threads may change the state the mutex protects (modelled by the caller-supplied vp_amu_wait_env hook) */
+void nsync_mu_wait (nsync_mu *mu, int (*condition) (const void *condition_arg), const void *condition_arg,
+		    int (*condition_arg_eq) (const void *a, const void *b)) {
+	(void) condition_arg_eq;
+	VP_ASSERT (vp_amu.held[idx (mu)], "C06 client: nsync_mu_wait requires the mutex held");
+	if (!(*condition) (condition_arg)) {
+		vp_amu.cv_waits++;
+		if (vp_amu_wait_env != NULL) (*vp_amu_wait_env) (mu, condition_arg);
+		VP_ASSUME ((*condition) (condition_arg));
+	}
 }
 /* VP-ASSUMED: nsync_cv_broadcast / nsync_cv_wait_with_deadline used by once.c: wait returns holding the mutex it was given (C05), any result */
 void nsync_cv_broadcast (nsync_cv *cv) { (void) cv; vp_amu.cv_broadcasts++; }
